@@ -42,7 +42,7 @@ PROPS = {
         explanation='two functions of information-set construction and attribute access cannot panic or recurse forever, whatever the parser produced: attr_value_from_name (entity expansion in attribute values: the recursion on entity references has a decreasing measure, a parameter-entity reference is an error) and XmlDocumentTypeDeclaration::node (every variant of the internal subset, including parameter-entity declarations and references, leads to a value or an error)',
     ),
     'C12': dict(
-        standin_ops=['dom.views_after_edits', 'dom.children_after_edits', 'dom.tree_atomic'],
+        standin_ops=['dom.views_after_edits', 'dom.children_after_edits', 'dom.tree_atomic', 'dom.attr_owner'],
         verus_units=['c13_tree', 'c12_idmap', 'c12_remove', 'c12_siblings'],
         level='proof',
         trusted_base=TRUSTED_VERUS,
@@ -142,7 +142,7 @@ PROPS = {
         explanation='DOM Level 1 CharacterData over the character sequence of text, comment and CDATA nodes, three layers (info helpers, info methods, DOM methods and CharacterDataMut trait defaults), every function verified against the contracts of its callees for all contents, offsets and counts, including absence of overflow and of std panics',
     ),
     'C13': dict(
-        standin_ops=['dom.tree_atomic', 'dom.children_after_edits', 'dom.text.insert_data', 'dom.text.delete_data', 'dom.text.replace_data', 'dom.text.append_data', 'dom.text.set_data', 'dom.comment.insert_data', 'dom.comment.delete_data', 'dom.comment.replace_data', 'dom.comment.append_data', 'dom.comment.set_data', 'dom.cdata.insert_data', 'dom.cdata.delete_data', 'dom.cdata.replace_data', 'dom.cdata.append_data', 'dom.cdata.set_data'],
+        standin_ops=['dom.tree_atomic', 'dom.children_after_edits', 'dom.attr_owner', 'dom.text.insert_data', 'dom.text.delete_data', 'dom.text.replace_data', 'dom.text.append_data', 'dom.text.set_data', 'dom.comment.insert_data', 'dom.comment.delete_data', 'dom.comment.replace_data', 'dom.comment.append_data', 'dom.comment.set_data', 'dom.cdata.insert_data', 'dom.cdata.delete_data', 'dom.cdata.replace_data', 'dom.cdata.append_data', 'dom.cdata.set_data'],
         verus_units=['c16_chardata', 'c13_tree'],
         level='proof',
         trusted_base=TRUSTED_VERUS,
